@@ -386,6 +386,10 @@ class MessageAccumulator:
     async def close(self):
         self._closed = True
         await self.flush()
+        # Nothing left to wake the sender up for
+        if self._wakeup_handle is not None:
+            self._wakeup_handle.cancel()
+            self._wakeup_handle = None
 
     async def add_message(
         self,
